@@ -297,6 +297,102 @@ theorem fit_all_only_if_placed (common : Inp) (all : List FGpu) (v : Nat)
   subst h1; subst h2
   exact ⟨g, hg, (byLibrary_spec all).2.1 g hg, hh⟩
 
+/-! ### the scheduler's full-fit decision (server/sched.go `pickBestFullFitByLibrary`) -/
+
+/-- `gpus[0].Library` of a list -/
+def headLib : List FGpu → Lib
+  | [] => Lib.other
+  | x :: _ => x.lib
+
+/-- **A full fit is declared only for a list on which all requested layers are placed — the very
+    list that is returned.**  If `pickBestFullFitByLibrary` returns `L` (non-nil) and parallelism `p`,
+    then `p` is one of the values tried, `L` is non-empty, consists of GPUs of the inventory that share
+    one `Library[_Variant]`, is sorted by free memory (descending), and `EstimateGPULayers` run **on `L`
+    in the returned order** with the options of that `p` (what `NewLlamaServer` does next) places every
+    requested layer: all `blocks+1` for `num_gpu < 0`, exactly `num_gpu` otherwise. -/
+theorem full_fit_places_all (commonOf : Nat → Inp) (np : Int) (dp : Nat) (spread : Bool)
+    (all L : List FGpu) (p : Nat) (h : pickFull commonOf np dp spread all = some (L, p)) :
+    p ∈ toTry np dp ∧ L ≠ [] ∧ (∀ m ∈ L, m ∈ all) ∧ (∃ k, ∀ m ∈ L, m.key = k) ∧ DescSorted L ∧
+    let common := commonOf p
+    let e := estimate { common with lib := headLib L, gpus := L.map (·.gpu) }
+    0 < e.layers ∧
+    (common.numGPU < 0 → e.layers = common.blocks.length + 1) ∧
+    (0 ≤ common.numGPU → (e.layers : Int) = common.numGPU) := by
+  obtain ⟨hp, hfit, g, hg, hL⟩ := pickFullGroups_some commonOf _ spread _ L p h
+  obtain ⟨_, hne, hkeys⟩ := byLibrary_spec all
+  have hmemAll := byLibrary_mem all g hg
+  have hsub : ∀ m ∈ L, m ∈ sortDesc g.members := by
+    rcases hL with rfl | ⟨x, hx, rfl⟩
+    · exact fun m hm => hm
+    · intro m hm; simp at hm; subst hm; exact hx
+  have hLne : L ≠ [] := by
+    rcases hL with rfl | ⟨x, _, rfl⟩
+    · intro hnil
+      have hlen := length_sortDesc g.members
+      rw [hnil] at hlen
+      have hne' := hne g hg
+      cases hm : g.members with
+      | nil => exact hne' hm
+      | cons a b => rw [hm] at hlen; simp at hlen
+    · simp
+  have hkey : ∀ m ∈ L, m.key = g.key :=
+    fun m hm => hkeys g hg m ((mem_sortDesc m g.members).mp (hsub m hm))
+  have hsorted : DescSorted L := by
+    rcases hL with rfl | ⟨x, _, rfl⟩
+    · exact sortDesc_sorted _
+    · simp [DescSorted]
+  refine ⟨hp, hLne, fun m hm => hmemAll m ((mem_sortDesc m g.members).mp (hsub m hm)),
+    ⟨g.key, hkey⟩, hsorted, ?_⟩
+  have hby := byLibrary_homog g.key L hLne hkey
+  have hlib : (⟨g.key, L⟩ : Group).lib = headLib L := by
+    cases L <;> rfl
+  unfold predictFitAll at hfit
+  rw [hby] at hfit
+  simp only [List.map_cons, List.map_nil, hlib, Group.gpus] at hfit
+  cases hpf : predictFit (commonOf p) [(headLib L, L.map (·.gpu))] with
+  | mk b v =>
+    rw [hpf] at hfit
+    simp only at hfit
+    subst hfit
+    obtain ⟨lib, gpus, hm, hh⟩ := fit_only_if_placed (commonOf p) _ v hpf
+    simp only [List.mem_singleton, Prod.mk.injEq] at hm
+    obtain ⟨h1, h2⟩ := hm
+    subst h1; subst h2
+    exact hh.2
+
+/-- `pickBestPartialFitByLibrary` returns the whole inventory (≤ 1 library) or one ByLibrary group -/
+theorem pickPartial_is_group (common : Inp) (all : List FGpu) :
+    pickPartial common all = all ∨ ∃ g ∈ byLibrary all, pickPartial common all = g.members := by
+  unfold pickPartial
+  simp only
+  split
+  · exact Or.inl rfl
+  · split
+    · rename_i g hg
+      exact Or.inr ⟨g, List.mem_of_getElem? hg, rfl⟩
+    · rename_i hnone
+      -- the index returned by the loop is always in range; the `none` arm is unreachable but
+      -- harmless: treat via the empty group not existing ⇒ show by the loop bound
+      exact Or.inr (by
+        exfalso
+        have hb : ∀ (gs : List Group) (i best fit : Nat), fit < i + gs.length →
+            bestLoop common i gs best fit < i + gs.length := by
+          intro gs
+          induction gs with
+          | nil => intro i best fit h; simpa [bestLoop] using h
+          | cons a rest ih =>
+            intro i best fit h
+            simp only [bestLoop, List.length_cons]
+            split
+            · have := ih (i + 1) ((predictFitAll common a.members).2) i (by omega)
+              omega
+            · have := ih (i + 1) best fit (by simp only [List.length_cons] at h; omega)
+              omega
+        have hlt := hb (byLibrary all) 0 0 0 (by omega)
+        simp only [Nat.zero_add] at hlt
+        rw [List.getElem?_eq_none_iff] at hnone
+        omega)
+
 /-! ### the scheduler's adjustment of the free figure (server/sched.go `updateFreeSpace`) -/
 
 /-- **The adjusted free memory never exceeds the reported one.**  For every GPU list (duplicate
